@@ -21,7 +21,10 @@ Kinds == {"cert", "csr", "crl", "revlist"}
 \* template classes for certificates (field groups that must survive the round trip)
 Classes == {"plain", "serial20", "names", "usages", "ekus", "ca_pathlen0", "ca_pathlen2", "sans", "constraints", "policies", "extraext", "validity_edges",
             \* the certified key has a coordinate with a leading zero byte (the point is written with fixed-width coordinates)
-            "subjkey_shortx", "subjkey_shorty"}
+            "subjkey_shortx", "subjkey_shorty",
+            \* interactions: every field group at once; an extra extension that replaces a generated one (same OID) next to
+            \* other generated extensions
+            "all_fields", "extra_overrides_keyusage", "extra_overrides_eku"}
 Eff(f, a) == IF a = "unset" THEN Default(f) ELSE a
 \* symbolic signing: what is signed, by which key
 SignedInput(alg, tbs) == IF alg \in Algs("sm2") THEN <<"raw", tbs>> ELSE <<"digest", alg, tbs>>
@@ -33,7 +36,8 @@ VARIABLES c, done
 Cases == UNION {{[kind |-> k, signer |-> f, alg |-> a, class |-> "plain"] : k \in Kinds, a \in {"unset"} \cup Algs(f)} : f \in Families} \cup
          {[kind |-> "cert", signer |-> "sm2", alg |-> "SM2WithSM3", class |-> cl] : cl \in Classes} \cup
          \* a request carries its signer's own key: signers whose public key has a short coordinate
-         {[kind |-> "csr", signer |-> "sm2", alg |-> "SM2WithSM3", class |-> cl] : cl \in {"subjkey_shortx", "subjkey_shorty"}}
+         {[kind |-> "csr", signer |-> "sm2", alg |-> "SM2WithSM3", class |-> cl] : cl \in {"subjkey_shortx", "subjkey_shorty",
+            "attrs_sans"}}      \* a request whose template already carries an extensionRequest attribute AND names to add
 Init == c \in Cases /\ done = FALSE
 Next == /\ ~done /\ done' = TRUE /\ c' = c
         /\ LET o == Create(c.signer, c.alg, "tbs") IN
